@@ -32,7 +32,7 @@ CHECKS = {
    "DESIGN.md §3 C06"),
  "C15": ("exploration",
    "exhaustive boundary-grid enumeration (operands x operators x operand forms) on the real compiler+VM against an i128 reference model",
-   "Every pair from a 60-value boundary grid is crossed with every integer operator and every operand form (variable/literal on each side, compound assignment), plus unary minus; each case is compiled (dispatcher-batched) and run on the real VM in a fresh runtime and compared with exact i128 arithmetic followed by a range check.",
+   "Every pair from a 60-value boundary grid is crossed with every integer operator and every operand form (variable/literal on each side, compound assignment), plus unary minus and its chains (-(-x), - - x, -(0 - x), -(-(-x))); each case is compiled (dispatcher-batched) and run on the real VM in a fresh runtime and compared with exact i128 arithmetic followed by a range check.",
    "Grid, not all 2^128 pairs (small-scope hypothesis on boundary values); negative exponents of ^ are unspecified and not asserted; host-fed variables are assumed to defeat constant folding (the literal forms cover the folder).",
    "DESIGN.md §3 C15"),
  "C37": ("model_checking",
@@ -101,15 +101,15 @@ CHECKS.update({
  "C16": U("the float boundary set F (38 quick / 105 thorough values incl. +-0, subnormals, 2^53 neighbours, +-MAX, +-inf, NaNs) crossed with + - * / ^, six comparisons, 13 unary intrinsics, atan2, pow, conversions, in six operand forms (host-fed variables, literals, compound assignment; optimizer on/off);",
           "Rust f64 bit-exact (observed through the host as bits); division by +-0.0 must raise division by zero in every form; comparisons must satisfy the total-order laws and agree across forms.",
           "Grid not all pairs; transcendental functions are compared with the same std functions (plumbing, not libm accuracy); int_from_float outside (-2^63,2^63) and round ties unspecified.", "DESIGN.md §3 C16"),
- "C18": U("all parameter lists of arity <= 2 (quick) / 3 (thorough) with every subset of defaults x 7 callee forms (free fn, method, qualified method, static method, struct constructor, variant constructor, leading-dot variant) x every valid call shape (positional prefix + named rest in any order, defaults omitted) x 3 tracing strata, plus every single-edit misuse shape;",
+ "C18": U("all parameter lists of arity <= 2 (quick) / 3 (thorough) with every subset of defaults x 7 callee forms (free fn, method, qualified method, static method, struct constructor, variant constructor, leading-dot variant) x every valid call shape (positional prefix + named rest in any order, defaults omitted) x 3 tracing strata, plus every single-edit misuse shape, plus a default expression naming a global that a parameter of the same function shadows (filled in for a recursive call);",
           "valid shapes behave as the positional call with defaults filled in (arguments traced in parameter order); misuse shapes get a diagnostic, never a panic or silent acceptance.",
           "Bounded arity; 'too many positional arguments' is recorded, not asserted (not in the statement's misuse list).", "DESIGN.md §3 C18"),
- "C19": U("all programs with lambda nesting depth 2 (quick) / 3 (thorough), 0-2 captured variables with every set of reading levels, every reassignment pattern (before creation / between creation and call / between calls), two roots (function body, top level), each lambda called twice;",
+ "C19": U("all programs with lambda nesting depth 2 (quick) / 3 (thorough), 0-2 captured variables with every set of reading levels, every reassignment pattern (before creation / between creation and call / between calls), two roots (function body, top level), each lambda called twice, plus 12 read forms and 5 inner-block bindings named like the capture, each in 2 roots x 2 depths;",
           "capture by value at creation, fresh locals per invocation.", "Bounded depth and two variables per program.", "DESIGN.md §3 C19"),
  "C20": U("the full table of 15 binding forms x 6 assignment operators x 3 targets (variable, field, element) (x nested-if position in thorough), each program compiled standalone;",
           "let forms and lambda captures are rejected with a diagnostic; var, element and field targets are accepted with the modelled effect; other forms are rejected or accepted with the plain effect; never a panic.",
           "int-typed targets only.", "DESIGN.md §3 C20"),
- "C21": U("all import layouts of three files (7 x 7 import forms x main's own declaration) with positive/negative/clash programs, plus all nests of <= 2 (quick) / 3 (thorough) scopes from block/if/while/for/arm/lambda with every let-before/after pattern, plus the sibling-scope family (a name bound in one arm / branch / block / loop / lambda must not be visible in a later sibling);",
+ "C21": U("all import layouts of three files (7 x 7 import forms x main's own declaration) with positive/negative/clash programs, plus all nests of <= 2 (quick) / 3 (thorough) scopes from block/if/while/for/arm/lambda with every let-before/after pattern, plus the sibling-scope family (a name bound in one arm / branch / block / loop / lambda must not be visible in a later sibling; a binding inside a lambda body shadowing its capture);",
           "a model resolver predicts the chosen declaration (observed by its tag), an unresolved-identifier diagnostic, or a clash diagnostic; an environment-stack model predicts every read in nested scopes.",
           "Bounded file/name counts; importing a name the file lacks, same-scope redeclaration and unaliased fully qualified names are unspecified.", "DESIGN.md §3 C21"),
  "C22": U("33 generic functions (incl. lambdas and tasks that capture values of the generic type, and interface methods passed as function values) x all ordered pairs of 10 (quick) / 21 (thorough) instantiation types satisfying their constraints, plus direct operator / for / index uses on user types, interfaces implemented with their methods written in every other order, generic functions instantiated at void next to another type, and a three-file program in which two modules declare a type of the same name;",
